@@ -100,7 +100,7 @@ pub mod asm {
         use crate::ispec::*;
         use vstd::arithmetic::power2::pow2;
         verus! {
-        broadcast use {crate::num_bigint::axiom_into_refl_obeys, crate::num_bigint::axiom_into_refl, crate::util::axiom_bigint_into_refl_obeys, crate::util::axiom_bigint_into_refl};
+        broadcast use {crate::num_bigint::axiom_into_refl_obeys, crate::num_bigint::axiom_into_refl, crate::util::axiom_bigint_into_refl_obeys, crate::util::axiom_bigint_into_refl, crate::std_gaps::axiom_vec_len_fits};
         //@@INCLUDE u_resolver/spec.rs
         //@@ITEMS resolver
         }
